@@ -385,6 +385,7 @@ def _run_body(spec):
                         assert_that(st_["value"], matcher, **kw)
                 except MismatchError as e:
                     log.append(("raised", i, st_["how"]))
+                    caught.append((i, e))
                     raise
                 except Exception as e:
                     log.append(("raised-other", i, st_["how"], repr(e)))
@@ -398,8 +399,29 @@ def _run_body(spec):
             elif spec.get("ending") == "teardown-skip":
                 self.addCleanup(self.skipTest, "skip from a cleanup")
 
+    caught = []
     res = Ext()
     T("test_body").run(res)
+    # what the raised MismatchError says: the value, the verbosity asked for, the annotation, the mismatch's own words
+    for i, e in caught:
+        st_, matcher, want = plan[i]
+        try:
+            text = str(e)
+            inner = matcher.match(st_["value"])
+            said = inner.describe() if inner is not None else None
+        except Exception as ex:
+            vs.append(V("mismatch-error", "str-raises", "str(MismatchError) raised %r" % (ex,)))
+            continue
+        if e.matchee is not st_["value"] and e.matchee != st_["value"]:
+            vs.append(V("mismatch-error", "matchee", "MismatchError.matchee is %r, the asserted value was %r" % (e.matchee, st_["value"])))
+        if bool(e.verbose) != bool(st_["verbose"]):
+            vs.append(V("mismatch-error", "verbose-flag", "%s(..., verbose=%r) raised a MismatchError with verbose=%r" % (st_["how"], st_["verbose"], e.verbose)))
+        if said is not None and said not in text:
+            vs.append(V("mismatch-error", "description-lost", "str(MismatchError) %r lacks the mismatch description %r" % (text[:200], said[:200])))
+        if st_["message"] and st_["message"] not in text:
+            vs.append(V("mismatch-error", "message-lost", "%s(..., message=%r): str(MismatchError) is %r" % (st_["how"], st_["message"], text[:200])))
+        if st_["verbose"] and "Matchee:" not in text:
+            vs.append(V("mismatch-error", "verbose-form", "verbose MismatchError lacks the matchee / matcher lines: %r" % (text[:200],)))
     # model
     stop = None
     any_expect_mismatch = False
